@@ -93,13 +93,10 @@ Qed.
 Section Total.
   Variable fmt_float : bool -> N -> bytes.
   Variable any_inner : bytes -> bytes -> outcome bytes.
-  Variable parse_float : bool -> bytes -> option N.
-  Variable parse_time : bytes -> option (Z * Z).
+  Variable dsc : scalar_kind -> jvalue -> outcome (option pval).
   Variable env : env.
   Hypothesis Hflat : oneofs_flat env.
-  Hypothesis Hfloat_ok : float_text_ok fmt_float.
-  Hypothesis Hfloat_rt : float_roundtrip fmt_float parse_float.
-  Hypothesis Htime : time_parse_extends parse_time.
+  Hypothesis Hscalar : scalar_rt_ok fmt_float dsc.
 
   Notation rep_value := (rep_value any_inner env).
   Notation rep_props := (rep_props any_inner env).
@@ -249,8 +246,7 @@ Section Total.
     - intros t v Hrep Hd f Hf. destruct f as [|f]; [lia|]. rewrite enc_value_S.
       inversion Hrep as [k w Hs|r pre opts n name Elk Eon _ Hu|r ps m Elk Hp|r ps m Elk Hp Hone|it l Hne Hit Hall
                          |it es Hne Hit Hnd Hall Hkeys|m Hu Hshape Hcomp Hany]; subst.
-      + destruct (scalar_roundtrip fmt_float parse_float parse_time Hfloat_ok Hfloat_rt Htime k v Hs)
-          as (J & (txt & Ht & _) & _). eauto.
+      + destruct (Hscalar k v Hs) as (J & (txt & Ht & _) & _). eauto.
       + rewrite Elk, Eon. apply escape_total. exact Hu.
       + rewrite Elk. apply (object_total d IH ps m Hp Hd). lia.
       + rewrite Elk. pose proof (Hflat _ _ Elk) as HF.
@@ -307,11 +303,11 @@ Section Total.
   Theorem codec_full root m : rep_root any_inner env root m ->
     exists txt J, encode fmt_float any_inner env root m = Ok txt /\ strict_parse txt = Some J /\
       (N.of_nat (jnest J) <= max_nesting ->
-       exists m', decode_tree parse_float parse_time env root J = Ok m' /\ equiv_root any_inner env root m m').
+       exists m', decode_tree dsc env root J = Ok m' /\ equiv_root any_inner env root m m').
   Proof.
     intros Hrep. destruct (encode_total root m Hrep) as (txt & Henc).
-    destruct (codec_roundtrip fmt_float any_inner parse_float parse_time env Hflat Hnames Hfloat_ok Hfloat_rt
-                Htime Hinner root m txt Hrep Henc) as (J & HJ & Hdec).
+    destruct (codec_roundtrip fmt_float any_inner dsc env Hflat Hnames Hscalar Hinner root m txt Hrep Henc)
+      as (J & HJ & Hdec).
     exists txt, J. repeat split; assumption.
   Qed.
 End Total.
